@@ -190,6 +190,95 @@ def name_arguments(tree):
     return count[0]
 
 
+def _exits(block):
+    return bool(block) and isinstance(block[-1], (ast.Return, ast.Raise, ast.Continue, ast.Break))
+
+
+def unelse(tree):
+    """if c: ..; <exit>  else: B      ->   if c: ..; <exit>   followed by B       (every block, innermost first)"""
+    count = [0]
+
+    class T(ast.NodeTransformer):
+        def _block(self, stmts):
+            out = []
+            for st in stmts:
+                if isinstance(st, ast.If) and st.orelse and _exits(st.body) and not (len(st.orelse) == 1 and isinstance(st.orelse[0], ast.If) and False):
+                    rest = st.orelse
+                    st.orelse = []
+                    out.append(st)
+                    out += rest
+                    count[0] += 1
+                else:
+                    out.append(st)
+            return out
+
+        def generic_visit(self, node):
+            node = super().generic_visit(node)
+            for fld in ("body", "orelse", "finalbody"):
+                v = getattr(node, fld, None)
+                if isinstance(v, list) and v and isinstance(v[0], ast.stmt) and not isinstance(node, (ast.ClassDef, ast.Module)):
+                    setattr(node, fld, self._block(v))
+            if isinstance(node, ast.Try):
+                for h in node.handlers:
+                    h.body = self._block(h.body)
+            return node
+    T().visit(tree)
+    ast.fix_missing_locations(tree)
+    return count[0]
+
+
+def else_after_exit(tree):
+    """if c: ..; <exit>   followed by REST (to the end of the block)   ->   if c: ..; <exit>  else: REST"""
+    count = [0]
+
+    class T(ast.NodeTransformer):
+        def _block(self, stmts):
+            for i, st in enumerate(stmts):
+                if isinstance(st, ast.If) and not st.orelse and _exits(st.body) and i + 1 < len(stmts):
+                    st.orelse = self._block(stmts[i + 1:])
+                    count[0] += 1
+                    return stmts[:i + 1]
+            return stmts
+
+        def generic_visit(self, node):
+            node = super().generic_visit(node)
+            for fld in ("body", "orelse", "finalbody"):
+                v = getattr(node, fld, None)
+                if isinstance(v, list) and v and isinstance(v[0], ast.stmt) and not isinstance(node, (ast.ClassDef, ast.Module)):
+                    setattr(node, fld, self._block(v))
+            if isinstance(node, ast.Try):
+                for h in node.handlers:
+                    h.body = self._block(h.body)
+            return node
+    T().visit(tree)
+    ast.fix_missing_locations(tree)
+    return count[0]
+
+
+def flip_comparisons(tree):
+    """a < b -> b > a ; a == b -> b == a ; ..   for single comparisons whose two sides are free of calls (names, attributes, subscripts,
+    constants, arithmetic): the same truth value, the operands evaluated in the other order (nothing to observe)"""
+    count = [0]
+    flip = {ast.Lt: ast.Gt, ast.Gt: ast.Lt, ast.LtE: ast.GtE, ast.GtE: ast.LtE, ast.Eq: ast.Eq, ast.NotEq: ast.NotEq}
+
+    def plain(e):
+        return not any(isinstance(x, (ast.Call, ast.Await, ast.Yield, ast.YieldFrom, ast.NamedExpr, ast.Lambda, ast.IfExp, ast.ListComp, ast.GeneratorExp, ast.DictComp, ast.SetComp))
+                       for x in ast.walk(e))
+
+    class T(ast.NodeTransformer):
+        def visit_Compare(self, n):
+            self.generic_visit(n)
+            if len(n.ops) == 1 and type(n.ops[0]) in flip and plain(n.left) and plain(n.comparators[0]) \
+                    and not (isinstance(n.comparators[0], ast.Constant) and n.comparators[0].value is None):
+                count[0] += 1
+                return ast.copy_location(ast.Compare(left=n.comparators[0], ops=[flip[type(n.ops[0])]()], comparators=[n.left]), n)
+            return n
+    for fn in [x for x in ast.walk(tree) if isinstance(x, (ast.FunctionDef, ast.AsyncFunctionDef))]:
+        T().visit(fn)
+    ast.fix_missing_locations(tree)
+    return count[0]
+
+
 def transformed_copy(mode, suffix="_q"):
     """a scratch copy of the analysed tree (VERIF_REPO_ROOT or /repo) with one transformation applied everywhere; (path, number of rewrites)"""
     src_root = os.environ.get("VERIF_REPO_ROOT", "/repo")
@@ -204,7 +293,8 @@ def transformed_copy(mode, suffix="_q"):
         if not os.path.exists(path):
             continue
         tree = ast.parse(open(path).read())
-        k = hoist_returns(tree) if mode == "hoist-returns" else (name_arguments(tree) if mode == "name-arguments" else rename_locals(tree, suffix))
+        k = {"hoist-returns": hoist_returns, "name-arguments": name_arguments, "unelse": unelse, "else-after-exit": else_after_exit,
+             "flip-comparisons": flip_comparisons}.get(mode, lambda t: rename_locals(t, suffix))(tree)
         if k:
             open(path, "w").write(ast.unparse(tree) + "\n")
             total += k
@@ -219,23 +309,15 @@ def main():
         suffix = sys.argv[sys.argv.index("--suffix") + 1]
     if "--only" in sys.argv:
         only = sys.argv[sys.argv.index("--only") + 1].split(",")
-    scratch = tempfile.mkdtemp(prefix="batchie-verif-alpha-", dir="/var/tmp")
+    mode = "rename-locals"
+    for m_ in ("hoist-returns", "name-arguments", "unelse", "else-after-exit", "flip-comparisons"):
+        if "--" + m_ in sys.argv:
+            mode = m_
     out = tempfile.mkdtemp(prefix="batchie-verif-alpha-out-", dir="/var/tmp")
+    scratch = None
     try:
-        subprocess.check_call(["rsync", "-a", "--exclude", ".git", "/repo/", scratch + "/"])
-        total = 0
-        files = []
-        for root, _, fs in os.walk(os.path.join(scratch, "src", "batchie")):
-            files += [os.path.join(root, f) for f in fs if f.endswith(".py") and not f.endswith("_test.py")]
-        files.append(os.path.join(scratch, "nextflow", "scripts", "batchie.py"))
-        for path in files:
-            src = open(path).read()
-            tree = ast.parse(src)
-            k = hoist_returns(tree) if "--hoist-returns" in sys.argv else (name_arguments(tree) if "--name-arguments" in sys.argv else rename_locals(tree, suffix))
-            if k:
-                open(path, "w").write(ast.unparse(tree) + "\n")
-                total += k
-        print(f"{'named ' + str(total) + ' call arguments' if '--name-arguments' in sys.argv else 'hoisted ' + str(total) + ' return expressions' if '--hoist-returns' in sys.argv else 'renamed ' + str(total) + ' local-name occurrences'} in {len(files)} files")
+        scratch, total = transformed_copy(mode, suffix)
+        print(f"{mode}: {total} rewrites")
         env = dict(os.environ, VERIF_REPO_ROOT=scratch, VERIF_OUT_DIR=out)
         r = subprocess.run(["/venv/bin/python", os.path.join(VERIF, "bin", "check_all.py")], capture_output=True, text=True, env=env, cwd=VERIF)
         line = [l for l in r.stdout.splitlines() if l.startswith("RESULT ")]
